@@ -125,6 +125,7 @@ func (fe *FE) runDeferred(st *State, d deferred, site string, panicking bool) bo
 	if d.native == "unlock" {
 		held := sel(fe.heapTerm(st, "G_held", arraySort([]string{SInt}, SBool)), d.ref)
 		fe.addOb(st, "lock", "held-at-unlock@defer."+site, nil, held, "deferred Unlock of a mutex that is not held is a fatal error")
+		fe.onRelease(st, d.ref, "defer."+site)
 		fe.ghostArrSet(st, "G_held", d.ref, "false", SBool)
 		return true
 	}
@@ -203,8 +204,12 @@ func (fe *FE) assertExprNoAssume(st *State, c *Ctx, e *Expr, kind, label string,
 
 // exitChecks: lock balance and joined tasks, on every exit.
 func (fe *FE) exitChecks(st *State, how string) {
-	if cur, ok := st.heap["G_held"]; ok && cur != "G_held!0" && cur != "?" {
-		fe.addOb(st, "lock", "balanced@"+how, nil, eq(cur, "G_held!0"), "every lock taken by this activation is released on this exit path")
+	if cur, ok := st.heap["G_held"]; ok && cur != "G_held!0" && cur != "?" && len(st.locksTouched) > 0 {
+		var ts []string
+		for _, m := range st.locksTouched {
+			ts = append(ts, eq(sel(cur, m), sel("G_held!0", m)))
+		}
+		fe.addOb(st, "lock", "balanced@"+how, nil, and(ts...), "every lock taken by this activation is released on this exit path")
 	}
 	if !fe.C.IsTask || true {
 		for _, lt := range st.live {
@@ -403,6 +408,30 @@ func (fe *FE) loopMods(li *loopInfo) {
 						switch callee.String() {
 						case "(*sync.Mutex).Lock", "(*sync.Mutex).Unlock", "(*sync.RWMutex).Lock", "(*sync.RWMutex).Unlock":
 							li.modHeap["G_held"] = true
+							for _, oc := range fe.matchHooks(&callInfo{display: fe.V.displayNames(callee, fe.Fn)}, "call") {
+								for _, cl := range oc.Clauses {
+									if cl.Kind == "after" || cl.Kind == "before" {
+										if lb := strings.Index(cl.Var, "["); lb > 0 {
+											li.modHeap["G_"+strings.TrimSpace(cl.Var[:lb])] = true
+										} else {
+											li.modGh[cl.Var] = true
+										}
+									}
+								}
+							}
+							// acquiring a lock with a monitor invariant re-reads the state it protects
+							if fa, ok := com.Args[0].(*ssa.FieldAddr); ok {
+								stt := derefType(fa.X.Type())
+								fld := stt.Underlying().(*types.Struct).Field(fa.Field)
+								if inv := fe.V.lockInv["sub_"+structName(stt)+"_"+fld.Name()]; inv != nil {
+									for _, g := range inv.guarded {
+										add(g.base, g.t)
+										if sl, ok := g.t.Underlying().(*types.Slice); ok {
+											add(elemBase(sl.Elem()), sl.Elem())
+										}
+									}
+								}
+							}
 							continue
 						case "(*sync.WaitGroup).Add":
 							li.modHeap["G_wg_added"] = true
@@ -428,7 +457,11 @@ func (fe *FE) loopMods(li *loopInfo) {
 				for _, oc := range fe.matchHooks(&callInfo{display: display}, mode) {
 					for _, cl := range oc.Clauses {
 						if cl.Kind == "after" || cl.Kind == "before" {
-							li.modGh[cl.Var] = true
+							if lb := strings.Index(cl.Var, "["); lb > 0 {
+								li.modHeap["G_"+strings.TrimSpace(cl.Var[:lb])] = true
+							} else {
+								li.modGh[cl.Var] = true
+							}
 						}
 					}
 				}
